@@ -41,6 +41,7 @@ type Listener struct {
 	s          *Netceptor
 	pc         PacketConner
 	ql         *quic.Listener
+	tr         *quic.Transport
 	acceptChan chan *acceptResult
 	doneChan   chan struct{}
 	doneOnce   *sync.Once
@@ -129,7 +130,7 @@ func (s *Netceptor) listen(ctx context.Context, service string, tlscfg *tls.Conf
 	}
 	statelessResetKey := make([]byte, 32)
 	rand.Read(statelessResetKey)
-	tr := quic.Transport{
+	tr := &quic.Transport{
 		Conn:              quicPacketConn{pc},
 		StatelessResetKey: (*quic.StatelessResetKey)(statelessResetKey),
 	}
@@ -156,6 +157,7 @@ func (s *Netceptor) listen(ctx context.Context, service string, tlscfg *tls.Conf
 		s:          s,
 		pc:         pc,
 		ql:         ql,
+		tr:         tr,
 		acceptChan: make(chan *acceptResult),
 		doneChan:   doneChan,
 		doneOnce:   &sync.Once{},
@@ -320,6 +322,13 @@ func (li *Listener) Close() error {
 	// ql.Close(), and the two can block each other forever inside quic-go.
 	qerr := li.ql.Close()
 	perr := li.pc.Close()
+	if li.tr != nil {
+		// quic-go keeps every transport's packet connection in a process-wide table keyed by its
+		// local address (node:service) until the transport's read loop has ended, and panics when
+		// the same address is added again.  Wait for that, so that the service can be listened
+		// on again as soon as Close has returned.
+		_ = li.tr.Close()
+	}
 	if qerr != nil {
 		return qerr
 	}
